@@ -7,6 +7,6 @@ Ats <- AtsAll
 NVals = 1
 MaxAttrs = 4
 NTexts = 1
-SvgPrefixChildren = FALSE
+SvgPrefixChildren = TRUE
 INVARIANTS Fits EmitDone
 CHECK_DEADLOCK FALSE
